@@ -73,7 +73,8 @@ def plant_api(asm, acc, fault_class, fault, pos, depth, compress, root=None):
     acc['ntkeys'].add(core.ckey(fault, pos, depth, compress))
     core.see(acc, 'cells', '%s/%s/%s' % (fault_class, carrier(fault), 'c' if compress else 'u'))
     if depth == 0:
-        o = monitors.observe(asm, '\n'.join(lines) + '\n', compress, tap=False)
+        eol = ['\n', '\r\n', '\r', '\n'][(pos + len(fault)) % 4]         # program text handed in as a string: LF, CR LF or bare CR line ends
+        o = monitors.observe(asm, eol.join(lines) + eol, compress, tap=False)
         want_file, want_line = '<string>', pos + 1 + shift
         same_file = lambda f: f == '<string>'  # noqa
     else:
